@@ -12,7 +12,8 @@ import json, os, re, sys
 
 REPO = os.environ.get("VERIF_REPO", "/repo")
 VERIF = os.path.dirname(os.path.dirname(os.path.abspath(__file__)))
-OUT = os.path.join(VERIF, ".build", "ov")
+TAG = os.environ.get("VERIF_BUILD_TAG", "main")
+OUT = os.path.join(VERIF, ".build", "ov-" + TAG)
 
 
 def die(msg):
@@ -80,7 +81,7 @@ def main():
         p = os.path.join(OUT, "base", rel + ".txt")
         write(p, s)
         base[os.path.join(REPO, rel)] = p
-    write(os.path.join(VERIF, ".build", "overlay-base.json"), json.dumps({"Replace": base}, indent=1))
+    write(os.path.join(VERIF, ".build", "overlay-%s-base.json" % TAG), json.dumps({"Replace": base}, indent=1))
 
     # sched overlay
     sched = dict(base)
@@ -106,7 +107,7 @@ def main():
                 write(p, t)
                 sched[os.path.join(REPO, rel)] = p
                 n += 1
-    write(os.path.join(VERIF, ".build", "overlay-sched.json"), json.dumps({"Replace": sched}, indent=1))
+    write(os.path.join(VERIF, ".build", "overlay-%s-sched.json" % TAG), json.dumps({"Replace": sched}, indent=1))
     print("overlaygen: base=%d files, sched=%d sync rewrites" % (len(base), n))
 
 
